@@ -47,6 +47,7 @@ def dispatch (op : String) (j : Json) : R Json :=
   | "docDecode" => opDocDecode j
   | "deepRoundTrip" => opDeepRoundTrip j
   | "deepWF" => opDeepWF j
+  | "deepRead" => opDeepRead j
   | "textWrite" => opTextWrite j
   | "textRead" => opTextRead j
   | "unmarshalText" => opUnmarshalText j
